@@ -928,8 +928,9 @@ def judge_event(ev) -> list:
     changed = {k: (b, a) for k, b, a in diff["changed"]}
     removed = set(diff["removed"])
     fk = ev["fault"]["kind"]
-    fired_any = (bool(ev.get("fired")) or expected_failure(ev) or may_fail(ev) or (fk == "E3" and ev.get("e3_armed"))
-                 or ev.get("natural_ok") is False or bool(ev.get("target_is_dir")))
+    real_fault = (bool(ev.get("fired")) or expected_failure(ev) or may_fail(ev) or (fk == "E3" and ev.get("e3_armed"))
+                  or ev.get("natural_ok") is False)
+    fired_any = real_fault or bool(ev.get("target_is_dir"))
 
     def v(cls, **kw):
         d = {"class": cls, "kind": kind, "fault": fk, "fault_mode": ev["fault"].get("mode") or ev["fault"].get("what")
@@ -949,6 +950,10 @@ def judge_event(ev) -> list:
     if set(ev["tmp_after"]) - set(ev["tmp_before"]) or [k for k in added if k.startswith("tmp/")]:
         v("temp_debris", detail={"before": ev["tmp_before"][:5], "after": ev["tmp_after"][:8]})
 
+    if oc["k"] == "raised" and ev.get("target_is_dir") and not real_fault:
+        # neither encoding nor conversion failed: the export could not be PLACED because a directory sits at the
+        # requested path - a failure of the final placement, which the property's failure clause does not cover (§9)
+        return out
     if oc["k"] == "raised":
         if not fired_any and ev.get("construct_error") is None:
             # nothing was injected and nothing natural was arranged: the export must work
